@@ -4,6 +4,7 @@ import Mathlib.Algebra.CharZero.Defs
 import Mathlib.Algebra.Order.Interval.Finset.SuccPred
 import Mathlib.Tactic.Ring
 import Mathlib.Tactic.FieldSimp
+import Mathlib.Data.Complex.Basic
 
 /-! Helper lemmas for C14: the interpreter of `Pms.TimeCorr` on a well-formed branch description. -/
 open Finset
@@ -290,6 +291,9 @@ theorem diffs_ne_nil {α : Type} [Sub α] (ts : ℕ → α) (T : ℕ) : diffs ts
   unfold diffs
   rw [Ne, List.map_eq_nil_iff, List.range_eq_nil]
   omega
+
+/-- `Cx ℝ` is ℂ -/
+def toC (x : Cx ℝ) : ℂ := ⟨x.re, x.im⟩
 
 theorem evenlyB_iff {α : Type} [Sub α] [DecidableEq α] (ts : ℕ → α) (T : ℕ) :
     evenlyB ts T = true ↔ Evenly ts T := by
